@@ -4,13 +4,13 @@
 PATCH="$(readlink -f "$1")"; DEMO="$(readlink -f "$2")"; PKG="$3"; shift 3
 export GOFLAGS=-mod=mod GOPROXY=off GOSUMDB=off GOTOOLCHAIN=local
 WT="$(mktemp -d /tmp/seedcf.XXXXXX)"; rmdir "$WT"
-trap 'git -C /repo worktree remove --force "$WT" >/dev/null 2>&1; rm -rf "$WT"' EXIT
+trap 'git -C /repo worktree remove --force "$WT" >/dev/null 2>&1; rm -rf "$WT" /tmp/seedcf.$$.*.log' EXIT
 git -C /repo worktree add --detach "$WT" HEAD >/dev/null 2>&1 || exit 2
 cd "$WT"
 cp "$DEMO" "$PKG/zz_seed_demo_test.go"
-go test -vet=off -count=1 "$@" "./$PKG/" > /tmp/seedcf.clean.log 2>&1; echo "demo on clean tree: rc=$? (want 0)"
+go test -vet=off -count=1 "$@" "./$PKG/" > /tmp/seedcf.$$.clean.log 2>&1; echo "demo on clean tree: rc=$? (want 0)"
 git apply "$PATCH" || exit 2
-go test -vet=off -count=1 "$@" "./$PKG/" > /tmp/seedcf.mut.log 2>&1; echo "demo with change: rc=$? (want non-zero)"; grep -m3 "^\s*---\|FAIL\|_test.go" /tmp/seedcf.mut.log | head -4
+go test -vet=off -count=1 "$@" "./$PKG/" > /tmp/seedcf.$$.mut.log 2>&1; echo "demo with change: rc=$? (want non-zero)"; grep -m3 "^\s*---\|FAIL\|_test.go" /tmp/seedcf.$$.mut.log | head -4
 rm "$PKG/zz_seed_demo_test.go"
-go test -vet=off -count=1 ./... > /tmp/seedcf.suite.log 2>&1
-echo "suite with change: failing packages: $(grep '^FAIL' /tmp/seedcf.suite.log | grep -v '^FAIL$' | tr '\n' ' ')"; grep "^--- FAIL" /tmp/seedcf.suite.log | sort | uniq | tr '\n' ' '; echo
+go test -vet=off -count=1 ./... > /tmp/seedcf.$$.suite.log 2>&1
+echo "suite with change: failing packages: $(grep '^FAIL' /tmp/seedcf.$$.suite.log | grep -v '^FAIL$' | tr '\n' ' ')"; grep "^--- FAIL" /tmp/seedcf.$$.suite.log | sort | uniq | tr '\n' ' '; echo
